@@ -78,6 +78,12 @@ def run(env):
         es = []
         els = env.harness([{"ctx": "R", "op": "gpow", "args": [str(r.randrange(L))]} for _ in range(2 * n)])
         es = [[els[2 * i], els[2 * i + 1]] for i in range(n)]
+        # identity components and repeated ciphertexts (the neutral element is 32 zero bytes)
+        ident = "x:" + "00" * 32
+        if n >= 3:
+            es[0] = [ident, ident]; es[1] = [es[1][0], ident]; es[-1] = es[2] if n > 3 else es[-1]
+        elif n == 1 and len(rspecs) > 1 and rspecs.index(n) == 0:
+            es[0] = [ident, ident]
         o = env.harness([{"ctx": "R", "op": "gen_shuffle", "args": [pk, es, script(r, 200 * n + 512)], "tag": "ristretto"}])[0]
         out, rs, perm = o[0], o[1], o[2]
         pr = env.harness([{"ctx": "R", "op": "gen_proof", "args": [pk, gs, es, out, rs, perm, "x:aa", script(r, 64 * (4 * n + 4) + 512)], "tag": "ristretto"}])[0]
@@ -86,5 +92,18 @@ def run(env):
         ck = {"ctx": "R", "op": "check_proof", "args": [pk, gs, pr[0], es, out, "x:aa"], "tag": "ristretto"}
         if env.harness([ck])[0] is not True:
             env.violation("honest ristretto shuffle proof rejected, N=%d" % n, {"kind": "battery", "case": ck})
+        # ... and after inputs, outputs, key and generators went through their wire formats (another process)
+        if n <= 40:
+            w = env.harness([{"ctx": "R", "op": "ser_vec_c", "args": [es], "tag": "ristretto-wire"}, {"ctx": "R", "op": "ser_vec_c", "args": [out], "tag": "ristretto-wire"},
+                             {"ctx": "R", "op": "ser_vec_e", "args": [gs], "tag": "ristretto-wire"}, {"ctx": "R", "op": "ser_pk", "args": [pk], "tag": "ristretto-wire"}])
+            d = env.harness([{"ctx": "R", "op": "de_vec_c", "args": [w[0]], "tag": "ristretto-wire"}, {"ctx": "R", "op": "de_vec_c", "args": [w[1]], "tag": "ristretto-wire"},
+                             {"ctx": "R", "op": "de_vec_e", "args": [w[2]], "tag": "ristretto-wire"}, {"ctx": "R", "op": "de_pk", "args": [w[3]], "tag": "ristretto-wire"}])
+            if d[0] != es or d[1] != out or d[2] != gs or d[3] != pk:
+                env.violation("ristretto shuffle statement (N=%d, identity components included) does not survive serialization: %s" % (n, [str(x)[:60] for x in d]),
+                              {"kind": "battery", "case": [{"ctx": "R", "op": "de_vec_c", "args": [w[0]]}, {"ctx": "R", "op": "de_vec_c", "args": [w[1]]}], "out": d})
+            else:
+                ck2 = {"ctx": "R", "op": "check_proof", "args": [d[3], d[2], pr[0], d[0], d[1], "x:aa"], "tag": "ristretto-wire"}
+                if env.harness([ck2])[0] is not True:
+                    env.violation("honest ristretto shuffle proof rejected after the serialization round trip, N=%d" % n, {"kind": "battery", "case": ck2})
     if fails:
         env.tie_violation("C03", fails)
